@@ -205,15 +205,8 @@ def run(ck, w):
         elif not calls - {"index::entry::IndexEntry::metadata_from"} and params and all(
                 p[0] == "basis_entry" and "addrs" in p[1] for p in params):
             # presence check: `.all(|a| block_dir.contains(..))` must have returned true
-            alls = [e for e in cfb.events if e.bb in cfb.live and (e.callee or "") == "std::iter::Iterator::all"]
-            closure_ok = False
-            for e in alls:
-                for a in e.args[1:]:
-                    for oo in flow.origins(cfb, a):
-                        if oo[0] == "agg" and oo[1] in lib.bodies:
-                            cb = lib.bodies[oo[1]]
-                            if events_of(lib, cb, "blockdir::BlockDir::contains"):
-                                closure_ok = True
+            alls = common.presence_tests(w, cfb)
+            closure_ok = bool(alls)
             g1 = ck.ob("C03.3d.reuse", "basis addresses are reused only when all(|a| block_dir.contains(a.hash)) was true")
             if not closure_ok:
                 ck.fail(g1, cfb.name, "no contains() presence test", "no Iterator::all over BlockDir::contains found", site)
